@@ -56,6 +56,25 @@ Proof.
 Qed.
 Print Assumptions C03_engine_outputs_same_tokens.
 
+(** ... and for every value, strings included: both streams glue (literal
+    pieces of a string value merged, C01_engine_output_tokens_all) to the SAME
+    expression tokens, however differently the two layouts split each string. *)
+From PP Require Import StrBridge.
+Theorem C03_engine_outputs_same_tokens_all :
+  forall (printable sp wd lb : N -> bool) (fuel ff : nat) (v : pyval) (depth : option Z) (maxlen : Z) (sort : bool)
+         (indent1 width1 rw1 indent2 width2 rw2 : Z) (out1 out2 : list sdoc),
+    wf_val v ->
+    sdocs_model printable sp wd lb fuel ff v indent1 width1 rw1 depth maxlen sort = Some out1 ->
+    sdocs_model printable sp wd lb fuel ff v indent2 width2 rw2 depth maxlen sort = Some out2 ->
+    exists ts, Glue printable (rtoks (strip out1) NNormal) ts /\ Glue printable (rtoks (strip out2) NNormal) ts.
+Proof.
+  intros. exists (etoks (expr_of (mkE depth maxlen sort) v false)).
+  destruct (engine_output_tokens_all _ _ _ _ _ _ _ _ _ _ _ _ _ _ H H0) as (r1 & <- & G1).
+  destruct (engine_output_tokens_all _ _ _ _ _ _ _ _ _ _ _ _ _ _ H H1) as (r2 & <- & G2).
+  split; assumption.
+Qed.
+Print Assumptions C03_engine_outputs_same_tokens_all.
+
 (** Every output line is indented by a multiple of the indent setting: every
     line break the model of the layout engine emits - for ANY value of the
     model universe (strings and their multi-line strategies included), at every
